@@ -274,6 +274,9 @@ struct World<'a> {
     /// are the same character in a namespace
     strict_order: bool,
     ns_norm: bool,
+    /// `@forward .. as p-* show $..` + configuration: the list is compared with the
+    /// unprefixed name (what dart-sass' `throughForward` does) instead of the prefixed one
+    cfg_filter_unprefixed: bool,
     cells: Vec<i64>,
     mods: Vec<Mod>,
     loaded: BTreeMap<usize, usize>,
@@ -509,7 +512,8 @@ impl World<'_> {
             if forward {
                 for (n, idx) in incoming {
                     if let Some(rest) = n.strip_prefix(l.as_.as_str()) {
-                        if self.allowed(l, true, false, n) {
+                        let listed_as = if self.cfg_filter_unprefixed { rest } else { n.as_str() };
+                        if self.allowed(l, true, false, listed_as) {
                             cfg.push((rest.to_string(), *idx));
                         }
                     }
@@ -714,12 +718,13 @@ impl World<'_> {
     }
 }
 
-fn run_model(case: &Case, fl: u16, strict_order: bool, ns_norm: bool) -> O {
+fn run_model(case: &Case, fl: u16, strict_order: bool, ns_norm: bool, cfg_filter_unprefixed: bool) -> O {
     let mut w = World {
         case,
         fl,
         strict_order,
         ns_norm,
+        cfg_filter_unprefixed,
         cells: Vec::new(),
         mods: Vec::new(),
         loaded: BTreeMap::new(),
@@ -739,9 +744,11 @@ fn model(case: &Case, fl: u16) -> Vec<O> {
     let mut out = Vec::new();
     for so in [true, false] {
         for nn in [false, true] {
-            let o = run_model(case, fl, so, nn);
-            if !out.contains(&o) {
-                out.push(o);
+            for cu in [false, true] {
+                let o = run_model(case, fl, so, nn, cu);
+                if !out.contains(&o) {
+                    out.push(o);
+                }
             }
         }
     }
@@ -776,12 +783,13 @@ fn keys_of(v: &str) -> String {
     format!("keys: {}", keys.join(","))
 }
 
-fn run_real(case: &Case) -> (O, String) {
+fn run_real(case: &Case) -> (O, String, Option<String>) {
     let srcs: Vec<String> = (0..case.files.len()).map(|k| file_text(case, k)).collect();
     let files: Vec<(&str, &str)> = case.files.iter().zip(&srcs).map(|(f, s)| (f.path.as_str(), s.as_str())).collect();
     let loader = MemLoader::new(&files).with_budget(200);
     let (out, kind) = rs::compile_with_loader_kind(loader, &case.files[0].path, srcs[0].as_bytes(), Fmt::EXPANDED);
     let shown = out.short();
+    let head = out.err_head().map(String::from);
     let o = match out {
         Out::Css(css) => match css.strip_prefix("x {\n  ").and_then(|b| b.strip_suffix(";\n}\n")) {
             Some(body) if !body.contains('\n') => {
@@ -806,7 +814,7 @@ fn run_real(case: &Case) -> (O, String) {
         }
         Out::Panic(p) => O::Val(format!("<<panic {p}>>")),
     };
-    (o, shown)
+    (o, shown, head)
 }
 
 fn describe(case: &Case) -> String {
@@ -817,9 +825,19 @@ fn describe(case: &Case) -> String {
     s
 }
 
+/// all non-empty switch sets, fewest switches first
+fn switch_sets() -> &'static [u16] {
+    static SETS: std::sync::OnceLock<Vec<u16>> = std::sync::OnceLock::new();
+    SETS.get_or_init(|| {
+        let mut sets: Vec<u16> = (1u16..256).collect();
+        sets.sort_by_key(|s| (s.count_ones(), *s));
+        sets
+    })
+}
+
 fn check(case: &Case) -> Verdict {
     let want = model(case, 0);
-    let (real, shown) = run_real(case);
+    let (real, shown, head) = run_real(case);
     if let O::Val(v) = &real {
         if let Some(p) = v.strip_prefix("<<panic ") {
             let site: Vec<&str> = p.split(':').collect();
@@ -828,13 +846,12 @@ fn check(case: &Case) -> Verdict {
         }
     }
     if want.contains(&real) {
-        // error text is not part of the observation: only its presence is specified
-        return Verdict::pass(&real);
+        // only the presence of an error is specified; its first line goes into the observation
+        return Verdict::pass(&(real, head));
     }
     // smallest set of known-defect switches that reproduces the observation exactly
-    let mut sets: Vec<u16> = (1u16..256).collect();
-    sets.sort_by_key(|s| (s.count_ones(), *s));
-    for fl in sets {
+    for fl in switch_sets() {
+        let fl = *fl;
         if model(case, fl).contains(&real) {
             let names: Vec<&str> = FLAG_NAMES.iter().filter(|(f, _)| fl & f != 0).map(|(_, n)| *n).collect();
             return Verdict::fail_sig(
@@ -1157,7 +1174,7 @@ fn main() {
 
     // ---- 1. configuration of a directly used module
     {
-        let names: &[&str] = if quick { &["d", "v", "u", "-p"] } else { &["d", "v", "u", "-p", "_p", "f"] };
+        let names: &[&str] = if quick { &["d", "v", "u", "-p"] } else { &["d", "v", "u", "-p", "_p", "f", "_d"] };
         let maxw = if quick { 2 } else { 3 };
         let mut cases = Vec::new();
         for members in if quick { vec!["leaf"] } else { vec!["leaf", "leaf_"] } {
@@ -1293,11 +1310,15 @@ fn main() {
                 }
             }
             for (kind, names) in &filters {
-                for as_ in ["", "*"] {
+                for as_ in if quick { vec!["", "*"] } else { vec!["", "*", "n"] } {
                     if as_ == "*" && quick && names.len() > 1 {
                         continue;
                     }
-                    let ns = if as_.is_empty() { "a" } else { "" };
+                    let ns = match as_ {
+                        "" => "a",
+                        "*" => "",
+                        n => n,
+                    };
                     let mut probes = probes_for(
                         ns,
                         &["v", "d", "-p", "p-v", "p-d", "p--p"],
@@ -1315,7 +1336,7 @@ fn main() {
                             files: vec![
                                 file("r.scss", vec![use_(1, "a", as_, vec![], false)], "", None),
                                 file("a.scss", vec![fwd(2, "b", prefix, kind, &names, vec![])], "mid", None),
-                                file("b.scss", vec![], "leaf", None),
+                                file("b.scss", vec![], if as_ == "n" { "leaf_" } else { "leaf" }, None),
                             ],
                             probe: p,
                         });
@@ -1332,7 +1353,7 @@ fn main() {
 
     // ---- 4. configuration through @forward
     {
-        let cfg_names: &[&str] = if quick { &["d", "p-d", "v", "e", "u"] } else { &["d", "p-d", "v", "e", "u", "p-v", "-p"] };
+        let cfg_names: &[&str] = if quick { &["d", "p-d", "v", "e", "u"] } else { &["d", "p-d", "v", "e", "u", "p-v", "-p", "p_d"] };
         let maxw = if quick { 1 } else { 2 };
         let fwd_withs: Vec<Vec<WithArg>> = vec![
             vec![],
@@ -1370,7 +1391,7 @@ fn main() {
                             for p in probes {
                                 cases.push(Case {
                                     files: vec![
-                                        file("r.scss", vec![use_(1, "a", as_, with.clone(), false)], "", None),
+                                        file("r.scss", vec![use_(1, "a", as_, with.clone(), !as_.is_empty() && !with.is_empty())], "", None),
                                         file("a.scss", vec![fwd(2, "b", prefix, fk, fnames, fw.clone())], "mid", None),
                                         file("b.scss", vec![], "leaf", None),
                                     ],
@@ -1395,17 +1416,23 @@ fn main() {
         let mut a_loads: Vec<Vec<Load>> = vec![vec![]];
         for as_ in ["", "*", "n"] {
             a_loads.push(vec![use_(2, "b", as_, vec![], false)]);
-            a_loads.push(vec![use_(2, "b", as_, vec![wa("d", 5)], false)]);
+            // (`as` + `with` in the order rsass parses; the standard order is section use-config's business)
+            a_loads.push(vec![use_(2, "b", as_, vec![wa("d", 5)], !as_.is_empty())]);
         }
         a_loads.push(vec![fwd(2, "b", "", "", &[], vec![])]);
         a_loads.push(vec![fwd(2, "b", "", "", &[], vec![wa("d", 5)])]);
         a_loads.push(vec![fwd(2, "b", "", "", &[], vec![wd("d", 5)])]);
+        // the same module used and forwarded by a, in both orders, the second or the first configured
+        a_loads.push(vec![use_(2, "b", "", vec![], false), fwd(2, "b", "", "", &[], vec![])]);
+        a_loads.push(vec![use_(2, "b", "", vec![], false), fwd(2, "b", "", "", &[], vec![wa("d", 5)])]);
+        a_loads.push(vec![fwd(2, "b", "", "", &[], vec![wa("d", 5)]), use_(2, "b", "", vec![], false)]);
+        a_loads.push(vec![fwd(2, "b", "p-", "", &[], vec![]), use_(2, "b", "*", vec![], false)]);
         // loads of r
         let ua: Vec<Load> = ["", "*"].iter().map(|a| use_(1, "a", a, vec![], false)).collect();
         let mut ub: Vec<Load> = Vec::new();
         for a in ["", "*"] {
             ub.push(use_(2, "b", a, vec![], false));
-            ub.push(use_(2, "b", a, vec![wa("d", 7)], false));
+            ub.push(use_(2, "b", a, vec![wa("d", 7)], !a.is_empty()));
         }
         let mut r_loads: Vec<Vec<Load>> = Vec::new();
         for x in &ua {
@@ -1419,8 +1446,8 @@ fn main() {
         }
         if !quick {
             for x in &ua {
-                r_loads.push(vec![use_(1, "a", &x.as_, vec![wa("e", 7)], false)]);
-                r_loads.push(vec![use_(1, "a", &x.as_, vec![wa("d", 7)], false)]);
+                r_loads.push(vec![use_(1, "a", &x.as_, vec![wa("e", 7)], !x.as_.is_empty())]);
+                r_loads.push(vec![use_(1, "a", &x.as_, vec![wa("d", 7)], !x.as_.is_empty())]);
             }
         }
         let inners: Vec<Option<Expr>> = vec![
